@@ -125,7 +125,7 @@ fn fri_verify_layers(
     let len: usize = n_layers.to_biguint().try_into().unwrap();
 
     for i in 0..len {
-        let target_layer_witness = layer_witness.get(i).unwrap();
+        let target_layer_witness = layer_witness.get(i).ok_or(Error::InvalidValue)?;
         let mut target_layer_witness_leaves = target_layer_witness.leaves.to_owned();
         let target_layer_witness_table_withness = target_layer_witness.table_witness.to_owned();
         let target_commitment = commitment.get(i).unwrap().clone();
@@ -140,7 +140,8 @@ fn fri_verify_layers(
 
         // Compute next layer queries.
         let (next_queries, verify_indices, verify_y_values) =
-            compute_next_layer(&mut queries, &mut target_layer_witness_leaves, params).unwrap();
+            compute_next_layer(&mut queries, &mut target_layer_witness_leaves, params)
+                .map_err(Error::Layer)?;
 
         // Table decommitment.
         table_decommit(
@@ -215,6 +216,9 @@ pub enum Error {
 
     #[error("Inner layer decommitment error")]
     TableDecommit(#[from] swiftness_commitment::table::decommit::Error),
+
+    #[error("Inner layer computation error")]
+    Layer(crate::layer::FriError),
 }
 
 #[cfg(not(feature = "std"))]
@@ -234,4 +238,7 @@ pub enum Error {
 
     #[error("Inner layer decommitment error")]
     TableDecommit(#[from] swiftness_commitment::table::decommit::Error),
+
+    #[error("Inner layer computation error")]
+    Layer(crate::layer::FriError),
 }
